@@ -111,6 +111,37 @@ fn run_c13q<D: Dg>(c: &C13Q) -> R {
         ensure_eq!(format!("has_walk([{h}, {v}]) with an id outside V is false"), false, d.has_walk(&[h, v]));
         ensure_eq!(format!("has_walk([{v}, {h}]) with an id outside V is false"), false, d.has_walk(&[v, h]));
     }
+    // entry points that take a vertex: they must panic or return (any value); under the `c13` profile an out-of-bounds
+    // unchecked access aborts the process, which the driver reports with this input
+    // F3, successor half (known finding, C13): a traversal over a NON-contiguous AdjacencyMap indexes `visited` with
+    // successor ids >= order (undefined behaviour, silent heap corruption), and a source id in a gap below `order` passes the
+    // constructors' `u < order` check. While SKIP_KNOWN_F3 is true the traversal entry points only see contiguous vertex sets.
+    if g.contiguous() || !crate::SKIP_KNOWN_F3 {
+    let src = [h];
+    let both = [g.vlist()[0], h];
+    at("Bfs::new / next");
+    let _ = outcome(|| Bfs::new(&d, src.iter().copied()).take(lim).count());
+    let _ = outcome(|| Bfs::new(&d, both.iter().copied()).take(lim).count());
+    at("BfsDist::new / next");
+    let _ = outcome(|| BfsDist::new(&d, src.iter().copied()).take(lim).count());
+    at("BfsPred::new / next / shortest_path");
+    let _ = outcome(|| BfsPred::new(&d, src.iter().copied()).take(lim).count());
+    let _ = outcome(|| BfsPred::new(&d, [g.vlist()[0]].into_iter()).shortest_path(|v| v == h));
+    at("Dfs::new / next");
+    let _ = outcome(|| Dfs::new(&d, src.iter().copied()).take(lim).count());
+    let _ = outcome(|| Dfs::new(&d, both.iter().copied()).take(lim).count());
+    at("DfsDist::new / next");
+    let _ = outcome(|| DfsDist::new(&d, src.iter().copied()).take(lim).count());
+    at("DfsPred::new / next");
+    let _ = outcome(|| DfsPred::new(&d, src.iter().copied()).take(lim).count());
+    at("PredecessorTree::search");
+    let _ = outcome(|| {
+        let t = BfsPred::new(&d, [g.vlist()[0]].into_iter()).predecessors();
+        let a = t.search(h, g.vlist()[0]);
+        let b = t.search(g.vlist()[0], h);
+        (a, b)
+    }).is_some();
+    }
     at("queries");
     ensure!(
         "queries with an id outside V never change the digraph",
@@ -128,13 +159,52 @@ fn run_c13q<D: Dg>(c: &C13Q) -> R {
     Ok(())
 }
 
+/// the weighted algorithms' entry points with a hostile source
+fn run_weighted_entry_points(c: &C13Q) -> R {
+    let g = &c.g;
+    let h = c.id;
+    let lim = g.order() + 8;
+    if c.repr == "AdjacencyListWeighted<usize>" {
+        let d = graaf::AdjacencyListWeighted::<usize>::build(g);
+        at("Dijkstra::new / next");
+        let _ = outcome(|| Dijkstra::new(&d, [h].into_iter()).take(lim).count());
+        let _ = outcome(|| Dijkstra::new(&d, [g.vlist()[0], h].into_iter()).take(lim).count());
+        at("DijkstraDist::new / distances");
+        let _ = outcome(|| DijkstraDist::new(&d, [h].into_iter()).distances());
+        at("DijkstraPred::new / predecessors / shortest_path");
+        let _ = outcome(|| DijkstraPred::new(&d, [h].into_iter()).predecessors());
+        let _ = outcome(|| DijkstraPred::new(&d, [g.vlist()[0]].into_iter()).shortest_path(|v| v == h));
+    }
+    if c.repr == "AdjacencyListWeighted<isize>" {
+        let d = graaf::AdjacencyListWeighted::<isize>::build(g);
+        at("BellmanFordMoore::new / distances");
+        let _ = outcome(|| {
+            let mut b = BellmanFordMoore::new(&d, h);
+            b.distances().map(<[isize]>::to_vec)
+        });
+        at("DistanceMatrix indexing");
+        let _ = outcome(|| {
+            let mut fw = FloydWarshall::new(&d);
+            let dm = fw.distances();
+            dm[(h, 0)]
+        });
+        let _ = outcome(|| {
+            let mut fw = FloydWarshall::new(&d);
+            let dm = fw.distances();
+            dm[h]
+        });
+    }
+    Ok(())
+}
+
 impl Case for C13Q {
     fn prop(&self) -> &'static str {
         "C13"
     }
 
     fn run(&self) -> R {
-        with_repr!(self.repr.as_str(), run_c13q(self))
+        with_repr!(self.repr.as_str(), run_c13q(self))?;
+        run_weighted_entry_points(self)
     }
 
     fn fields(&self) -> Vec<(String, J)> {
